@@ -189,6 +189,25 @@ func c11AddRealChannel(e *c11Env, nt *notification.Notifier, r *c11Rec) error {
 
 func c11Thorough(e *c11Env, do func(*c11Case, string) error) error {
 	c := e.c
+	// long runs (a p2p headers message carries up to 2000 headers): a hanging / held channel registered before a
+	// healthy one; every Add must return, every header must get its event on the healthy channel
+	for i, spec := range []struct {
+		n     int
+		chans []c11Spec
+	}{
+		{1100, []c11Spec{{"R", "hang"}, {"W", "ok"}}},
+		{1100, []c11Spec{{"W", "slow"}, {"R", "ok"}}},
+		{5000, []c11Spec{{"R", "hang"}, {"R", "ok"}}},
+	} {
+		hl := fmt.Sprintf("g=1,486604799,1,1,1231006505,2083236893;f=;L2,1,%d,545259519", spec.n)
+		k, err := c11Parse(fmt.Sprintf("c=%s/n=%d|%s", c11ChanStr(spec.chans), 7000+i, hl))
+		if err != nil {
+			return err
+		}
+		if err := do(k, "thorough-long-run"); err != nil {
+			return err
+		}
+	}
 	n := 160
 	for i := 0; i < n; i++ {
 		o := GenOpts{N: 2 + c.Rng.Intn(14), PUnknown: 0.08, PLate: 0.1, PDup: 0.12, PForbidden: 0.2, Deep: i%2 == 0, Positive: true}
@@ -223,25 +242,11 @@ func c11Thorough(e *c11Env, do func(*c11Case, string) error) error {
 			return err
 		}
 	}
-	// long runs (a p2p headers message carries up to 2000 headers): a hanging / held channel registered before a
-	// healthy one; every Add must return, every header must get its event on the healthy channel
-	for i, spec := range []struct {
-		n     int
-		chans []c11Spec
-	}{
-		{1100, []c11Spec{{"R", "hang"}, {"W", "ok"}}},
-		{1100, []c11Spec{{"W", "slow"}, {"R", "ok"}}},
-		{5000, []c11Spec{{"R", "hang"}, {"R", "ok"}}},
-	} {
-		hl := fmt.Sprintf("g=1,486604799,1,1,1231006505,2083236893;f=;L2,1,%d,545259519", spec.n)
-		k, err := c11Parse(fmt.Sprintf("c=%s/n=%d|%s", c11ChanStr(spec.chans), 7000+i, hl))
-		if err != nil {
-			return err
-		}
-		if err := do(k, "thorough-long-run"); err != nil {
-			return err
-		}
-	}
+	return nil
+}
+
+// c11RealClose shuts the test servers and the websocket client down (end of the run).
+func c11RealClose() {
 	x := c11real
 	if x.client != nil {
 		x.client.Close()
@@ -252,5 +257,4 @@ func c11Thorough(e *c11Env, do func(*c11Case, string) error) error {
 	if x.hookSrv != nil {
 		x.hookSrv.Close()
 	}
-	return nil
 }
